@@ -761,3 +761,69 @@ def probe_extent(facts, drivers=("hll", "theta", "tuple")):
         if fn.get("body"):
             scan(stmts_of(fn["body"]))
     return out
+
+
+def own_size_masks(facts):
+    """a slot mask used to address this array's registers is derived from THIS array's lg_k"""
+    fns = hll_fns(facts)
+    out = []
+    for pat, fn in sorted(fns.items()):
+        rect = fn.get("rect") or ""
+        if not any(x in rect for x in ("Hll4Array", "Hll6Array", "Hll8Array")):
+            continue
+        decls = local_decls(fn)
+        idx = [0]
+
+        def visit(n):
+            if n.get("k") == "Call" and n.get("cname") == "processValue" and len(n.get("args", [])) == 3:
+                m = strip_all(n["args"][1])
+                key = "%s:register-mask#%d" % (short(fn["patq"]), idx[0])
+                idx[0] += 1
+                ini = decls.get(m.get("d"), {}).get("init") if m.get("k") == "Ref" else m
+                t = txt(ini) if ini is not None else "?"
+                own = False
+                foreign = []
+
+                def v(x):
+                    nonlocal own
+                    if x.get("k") == "Call" and x.get("cname") == "getLgConfigK":
+                        o = strip(x.get("obj") or {})
+                        if o.get("k") == "This":
+                            own = True
+                        else:
+                            foreign.append(txt(o))
+                    if x.get("k") == "Member" and x.get("f") == "lgConfigK_" and strip(x["b"]).get("k") == "This":
+                        own = True
+                if ini is not None:
+                    walk(ini, v)
+                if own and not foreign:
+                    out.append(ob("hll.own-mask", key, n["loc"], "discharged", "register mask `%s` is derived from this array's lg_k" % t, fn["qname"]))
+                else:
+                    out.append(ob("hll.own-mask", key, n["loc"], "violated", "registers of this array are addressed with the mask `%s`, derived from %s instead of this array's own lg_k: slots beyond 2^lg_k are written past the end of the register array / folded to the wrong slot" % (t, "`%s`'s lg_k" % foreign[0] if foreign else "something else"), fn["qname"]))
+        walk(fn["body"], visit)
+    return out
+
+
+def union_gadget_type(facts):
+    """every implementation object that becomes the union's gadget was produced as HLL_8 (the merges downcast it to Hll8Array)"""
+    fns = hll_fns(facts)
+    out = []
+    ok_sources = ("copyAs(HLL_8)", "copyAs(2)", "copy_or_downsample(", "leak_free_coupon_update(", "gadget_.sketch_impl", "coupon_update(", "couponUpdate(")
+    for pat, fn in sorted(fns.items()):
+        if fn.get("rect") != "datasketches::hll_union_alloc" or fn["name"] != "union_impl":
+            continue
+        idx = [0]
+        casts = [0]
+        walk(fn["body"], lambda n: casts.__setitem__(0, casts[0] + 1) if n.get("k") == "Cast" and "Hll8Array" in (n.get("t") or "") and not n.get("impl") else None)
+
+        def v(n):
+            if n.get("k") == "Assign" and n.get("op") == "=" and txt(n["l"]) == "dst_impl":
+                r = txt(n["r"])
+                key = "hll_union_alloc::union_impl:gadget-type#%d" % idx[0]
+                idx[0] += 1
+                if any(s in r for s in ok_sources):
+                    out.append(ob("hll.gadget-type", key, n["loc"], "discharged", "dst_impl = %s (HLL_8 by construction)" % r[:80], fn["qname"]))
+                else:
+                    out.append(ob("hll.gadget-type", key, n["loc"], "violated", "the new gadget is produced by `%s`, which keeps the source's target type; %d places in union_impl downcast the gadget to Hll8Array (mergeHll/mergeList/putHipAccum): an HLL_4/HLL_6 gadget is then treated as HLL_8 (register corruption, heap overflow)" % (r[:80], casts[0]), fn["qname"]))
+        walk(fn["body"], v)
+    return out
